@@ -68,6 +68,35 @@ def abort_clause(A: Analysis, t: ast.Try) -> Optional[ast.ExceptHandler]:
     return None
 
 
+def rule_sg12(A: Analysis, rep):
+    """While the Python-level SIGCHLD handler is installed its wake-up pipe is open: `track()` installs the handler after
+    creating the pipe and, on the way out, restores the previous handler *before* closing the pipe.  A child that exits
+    while the handler is installed but the pipe is closed makes the handler raise (EBADF / TypeError) in the middle of
+    whatever is unwinding — an abort is replaced by that error and the running tasks are never terminated."""
+    tr = A.fn("utils.sigchld.SigchldHelper.track")
+    g = A.cfg(tr, "plain")
+
+    def is_sigchld_set(n):
+        return n.kind == "stmt" and any(isinstance(c, ast.Call) and norm(c.func) == "signal.signal" and c.args and norm(c.args[0]) == "signal.SIGCHLD" for c in ast.walk(n.ast))
+    sets = [n for n in g.nodes if n.ast is not None and is_sigchld_set(n)]
+    closes = [n for n in g.nodes if n.kind == "stmt" and n.ast is not None and any(isinstance(c, ast.Call) and norm(c.func) == "os.close" for c in ast.walk(n.ast))]
+    pipes = [n for n in g.nodes if n.kind == "stmt" and n.ast is not None and any(isinstance(c, ast.Call) and norm(c.func) == "os.pipe" for c in ast.walk(n.ast))]
+    fin = [t for t in walk_local(tr.node) if isinstance(t, ast.Try) and t.finalbody]
+    if len(sets) != 2 or not closes or len(pipes) != 1 or len(fin) != 1:
+        raise AnalysisError("SG12: anchors of SigchldHelper.track not found (signal.signal=%d, os.close=%d, os.pipe=%d, finally=%d)" % (len(sets), len(closes), len(pipes), len(fin)))
+    in_fin = {id(x) for s_ in fin[0].finalbody for x in ast.walk(s_)}
+    install = [n for n in sets if id(n.ast) not in in_fin]
+    restore = [n for n in sets if id(n.ast) in in_fin]
+    ok_install = len(install) == 1 and g.all_paths_pass(g.entry, install[0], pipes, skip_labels=is_exc)
+    rep.check(ok_install, "SG12", "pipe exists before the handler is installed", tr.node, "", "the SIGCHLD handler is installed before its wake-up pipe exists")
+    # inside the finally block: the restore comes before every close (statement order of the block decides, the block is straight-line)
+    order = [("restore" if any(id(r.ast) == id(s_) for r in restore) else "close" if any(id(c.ast) == id(s_) for c in closes) else None) for s_ in fin[0].finalbody]
+    order = [o for o in order if o]
+    ok_order = len(restore) == 1 and order[:1] == ["restore"] and all(id(c.ast) in in_fin for c in closes)
+    rep.check(ok_order, "SG12", "handler uninstalled before its pipe is closed", fin[0], "signal.signal(SIGCHLD, previous) precedes os.close(...) in the clean-up",
+              "the wake-up pipe is closed (order in the clean-up: %s) while the SIGCHLD handler is still installed: a child exiting in that window makes the handler raise and replaces the exception being unwound (an abort never reaches terminate_processes)" % order)
+
+
 def rule_sg11(A: Analysis, rep):
     """SG11: the signal dispositions are set in exactly two places (the termination handlers at start-up, the SIGCHLD
     handler around the run); nothing else ignores, defers or replaces them (an ignored SIGINT/SIGTERM is lost for good)."""
